@@ -241,9 +241,22 @@ pub fn run(sb: &Sandbox, inv: &Invocation) -> Finished {
             Ok(())
         });
     }
-    let mut child = match cmd.spawn() {
-        Ok(c) => c,
-        Err(e) => return Finished { status: Status::SpawnError(e.to_string()), stdout: vec![], stderr: vec![], shim_log: vec![], max_rss_kib: 0 },
+    // fork can fail transiently on a loaded machine (EAGAIN): retry, and if it keeps failing this
+    // is a fault of the environment, never a verdict about kestrel -> harness error (exit 2)
+    let mut child = {
+        let mut tries = 0;
+        loop {
+            match cmd.spawn() {
+                Ok(c) => break c,
+                Err(e) => {
+                    tries += 1;
+                    if tries >= 5 {
+                        panic!("harness: cannot start the kestrel child process: {}", e);
+                    }
+                    std::thread::sleep(std::time::Duration::from_millis(200 * tries));
+                }
+            }
+        }
     };
     drop(closed_pipe_keep);
     if let Stdin::Pipe(data) = &inv.stdin {
